@@ -327,6 +327,50 @@ class Hist:
                 break
 
 
+def corpus_cases(chk, binary, shim, model):
+    """corpus/C11/*.json: fixed cases run before the generated ones"""
+    import glob
+    n = 0
+    for p in sorted(glob.glob(os.path.join(VERIF, 'corpus', 'C11', '*.json'))):
+        case = json.load(open(p))
+        if case.get('kind') != 'scan_past_refuted':
+            continue
+        n += 1
+        cfg = {'nd': 1, 'np': 1, 'order': 'alpha', 'uuid': False, 'multi': False, 'where': 'tmpfs', 'both_scans': False, 'seed': 1, 'corpus': os.path.basename(p)}
+        H = Hist(chk, binary, shim, model, random.Random(1), cfg)
+        try:
+            w, a = H.w, H.w.arr
+            old, new = case['model']['old'], case['model']['new']
+            w.write('d1', old['name'], w.rng.randbytes(old['size']))
+            r = w.run('sync')
+            st = w.content()
+            hA = st['disks']['d1']['files'][0]['blocks'][0][2]
+            os.unlink(w.p('d1', old['name'])); w.log.append(['delete', 'd1', old['name']])
+            w.write('d1', new['name'], w.rng.randbytes(new['size']))
+            st0, lst = w.content(), w.listing()
+            r = c11_model.sync_with_model(H, st0, lst, []) if model else w.run('sync')
+            post = (H.last_post if hasattr(H, 'last_post') else None)
+            # the post-scan state as left by the killed run is compared with the model inside sync_with_model; look at it again here
+            ok = r is not False and r.rc == 0
+            st2 = w.content()
+            fB = st2['disks']['d1']['files'][0]
+            rc = w.run('check')
+            if not ok or rc.rc != 0 or any(b[0] != 'BLK' for b in fB['blocks']):
+                H.bad('corpus_' + case['name'], 'corpus case %s: sync exits %s, check exits %d, blocks %s' % (case['name'], r and r.rc, rc.rc, [b[0] for b in fB['blocks']]))
+            else:
+                pk = getattr(H, 'post_kill', None)
+                same = bool(pk) and pk['disks']['d1']['files'][0]['blocks'][0][0] == 'CHG' and pk['disks']['d1']['files'][0]['blocks'][0][2] == hA
+                chk.notes.append('corpus %s: the binary %s the past hash of the 100-byte block into the 1024-byte CHG block (post-scan state); sync then rewrites the parity and check passes'
+                                 % (case['name'], 'copies' if same else 'does NOT copy'))
+                if pk and not same:
+                    H.drift('corpus_' + case['name'], 'the post-scan state of the binary no longer shows the inherited past hash of the witness %s' % case['name'])
+            if model:
+                c11_model.flush_drift(H)
+        finally:
+            shutil.rmtree(H.w.arr.root, ignore_errors=True)
+    return n
+
+
 def configs(rng, n):
     cfgs = []
     for h in range(n):
@@ -354,6 +398,7 @@ def main(tier, replay=None):
         model = None
         chk.violation('model_build', 'the scan model does not build: %s' % str(e)[-600:], {'error': str(e)[-3000:]}, no_input=True)
     rng = chk.rng
+    ncorpus = corpus_cases(chk, binary, shim, model) if not replay else 0
     if replay:
         rp = json.load(open(replay))['replay']
         cfgs = [rp['config']]
@@ -386,7 +431,7 @@ def main(tier, replay=None):
                     'rule': 'histories of random file-system operations (create/recreate/rewrite/append/truncate/delete/rename/swap/move/copy -p/touch/symlink/hardlink/mkdir/file<->dir) '
                             'on %d arrays, scan orders alpha/inode/dir/physical, with and without usable inodes (fake UUIDs), threaded and sequential scans, tmpfs and ext4 (inode reuse); '
                             'per step diff/sync/diff/list/check judged by the harness walk; non-trivial = steps in which the tree differed from the recorded state' % len(cfgs),
-                    'histories': len(cfgs), 'steps': stats.get('steps', 0), 'diff_exit2': stats.get('diff2', 0), 'diff_exit0': stats.get('diff0', 0),
+                    'corpus_cases': ncorpus, 'histories': len(cfgs), 'steps': stats.get('steps', 0), 'diff_exit2': stats.get('diff2', 0), 'diff_exit0': stats.get('diff0', 0),
                     'partial_syncs': stats.get('partial', 0), 'invisible_rewrites_probed': stats.get('invisible', 0), 'inode_reuses_observed': stats.get('inode_reuse', 0),
                     'scan_counters_seen': counts, 'model_predictions_compared': tot['model'], 'traces_validated_against_impl': tot['model']})
     chk.cov['samples'] = samples
